@@ -27,7 +27,7 @@
   pass over several periods of the specification; `n` turns = the first `m` periods, `n ≤ m ≤ 24·n` resp.
   `48·n`, `1440·n`, `86400·n`).  All of these are assembled in `iter_eq_spec_supported_partial` over the
   decidable predicate `SupportedBy` (Spec/RRuleSupported.lean; driver op `rrule.supported`).
-  Missing: MINUTELY with BYHOUR and SECONDLY with BYHOUR / BYMINUTE / BYSECOND (the reachability
+  Missing: MINUTELY with BYHOUR and BYMINUTE together, SECONDLY with BYHOUR / BYMINUTE / BYSECOND (the reachability
   loops `minutelyLoop` / `secondlyLoop` beyond their first pass are only proved monotone), BYWEEKNO / BYEASTER
   under WEEKLY (BYWEEKNO under MONTHLY and DAILY..SECONDLY is covered) and BYEASTER outside YEARLY, nth BYDAY with plain BYDAY (all of it inside D-C01a), BYWEEKNO with BYEASTER or
   nth BYDAY.  Everything else below — including
@@ -52,6 +52,7 @@ import DateutilVerif.Proofs.RRuleSupported
 import DateutilVerif.Proofs.RRuleAmbient
 import DateutilVerif.Proofs.RRuleDailyW
 import DateutilVerif.Proofs.RRuleMonthlyW
+import DateutilVerif.Proofs.RRuleMinutelyBH
 
 namespace C01
 open RRule Cal RRule.Tables
@@ -526,6 +527,42 @@ theorem iter_eq_spec_minutely_byminute_partial (a : Args) (r : Rule) (ma : Minut
     ∃ m, n ≤ m ∧ m ≤ 1500 * n ∧ (iter r n).1 = Spec.RRule.occ a m :=
   iter_eq_spec_minutely_byminute ma h n hle
 
+/-- **the MINUTELY reachability loop beyond its first pass** (BYHOUR, no BYMINUTE): it stops at the LEAST grid minute
+    whose hour is listed, if one occurs within the fuel … -/
+theorem minutely_loop_least (r : Rule) (hi : 1 ≤ r.interval) (bh : List Int) (hbm : r.byminute = none)
+    (hbh : r.byhour = some bh) (htr : truthy (some bh) = true) (n : Nat) (W hour day : Int) (fx : Bool)
+    (hW : 0 ≤ W) (h0 : 0 ≤ hour) (h23 : hour ≤ 23)
+    (hex : ∃ t : Nat, 1 ≤ t ∧ t ≤ n ∧ bh.contains ((hour * 60 + W + t * r.interval) / 60 % 24) = true) :
+    ∃ t : Nat, 1 ≤ t ∧ t ≤ n ∧ bh.contains ((hour * 60 + W + t * r.interval) / 60 % 24) = true ∧
+      (∀ t' : Nat, 1 ≤ t' → t' < t → bh.contains ((hour * 60 + W + t' * r.interval) / 60 % 24) = false) ∧
+      minutelyLoop r n W hour day fx =
+        .ok ((hour * 60 + W + t * r.interval) % 60, (hour * 60 + W + t * r.interval) / 60 % 24,
+             day + (hour * 60 + W + t * r.interval) / 1440,
+             fx || decide ((hour * 60 + W + t * r.interval) / 1440 ≠ 0)) :=
+  minutelyLoop_bh r hi bh hbm hbh htr n W hour day fx hW h0 h23 hex
+
+/-- … and the loop's own bound suffices: in the step index, the orbit of `+interval` modulo `base` repeats after
+    `base / gcd(interval, base)` steps, so every window of that many consecutive steps meets every point of the orbit -/
+theorem orbit_period_window (interval base : Int) (hb : 0 < base) (k j : Nat) :
+    ∃ t : Nat, 1 ≤ t ∧ (t : Int) ≤ base / ((Int.gcd interval base : Nat) : Int) ∧
+      ∃ z : Int, ((k + t : Nat) : Int) * interval = (j : Int) * interval + base * z :=
+  orbit_window interval base hb k j
+
+/-- **`iter_eq_spec`, proved portion, MINUTELY with BYHOUR** (non-empty, no BYMINUTE; BYWEEKNO as in the other sub-daily
+    theorems) under the explicit, decidable reachability hypothesis `reachableHourM a`: some minute of the grid — the
+    orbit of the start under `+INTERVAL`, which repeats after at most 1440 steps — falls in a listed hour.  Then the
+    multi-pass loop never exhausts its bound and `n` turns correspond to `m` periods, `n ≤ m ≤ 2880·n`.
+    ON THE COMPLEMENT (`¬ reachableHourM a`) the recurrence set is EMPTY and the generator does not stop but raises
+    `ValueError("Invalid combination of interval and byhour resulting in empty rule.")` at the first `next()`:
+    known finding D-C01g (`rrule(MINUTELY, interval=120, byhour=[1], dtstart=datetime(2024,1,1,0,0))`); the model
+    reproduces it (`minutelyLoop` returns the same ValueError). -/
+theorem iter_eq_spec_minutely_byhour_partial (a : Args) (r : Rule) (ma : MinutelyBHArgs a) (h : construct a = .ok r)
+    (n : Nat)
+    (hle : (Spec.RRule.startOrd a * 24 + a.dtstart.hh) * 60 + a.dtstart.mm + (2880 * n + 1440) * a.interval + 1439 <
+      (maxOrdinal + 1) * 1440) :
+    ∃ m, n ≤ m ∧ m ≤ 2880 * n ∧ (iter r n).1 = Spec.RRule.occ a m :=
+  iter_eq_spec_minutely_byhour ma h n hle
+
 /-- **`iter_eq_spec` for every supported argument set** — the summary of the family theorems above.
     `SupportedBy a f` (Spec/RRuleSupported.lean) is a decidable condition on the arguments alone, the union of
     the proved families: DAILY, WEEKLY (BYSETPOS only with the start on the week start = outside D-C01e),
@@ -671,7 +708,13 @@ example : dates (construct { freq := 3, dtstart := dt 2024 12 1 9, byweekno := s
 example : family { freq := 0, dtstart := dt 1997 5 12 9, byweekno := some [20], byweekday := some [(0, 0)] }
     = some .yearlyWeekno := by decide +kernel
 example : family { freq := 1, dtstart := dt 2020 1 1 9, byweekday := some [(0, 0), (1, 1)] } = none := by decide +kernel
-example : family { freq := 5, dtstart := dt 2020 1 1 9, byhour := some [9] } = none := by decide +kernel
+example : family { freq := 5, dtstart := dt 2020 1 1 9, byhour := some [9] } = some .minutelyByhour := by decide +kernel
+-- D-C01g: MINUTELY every 120 minutes from 00:00 never meets hour 1: not supported, and the model raises ValueError
+example : family { freq := 5, interval := 120, dtstart := dt 2024 1 1, byhour := some [1] } = none := by decide +kernel
+example : (match construct { freq := 5, interval := 120, dtstart := dt 2024 1 1, byhour := some [1] } with
+           | .ok r => (iter r 1).2 | .error e => .error e) = .error .ValueError := by decide +kernel
+example : Spec.RRule.occ { freq := 5, interval := 120, dtstart := dt 2024 1 1, byhour := some [1] } 30 = [] := by
+  decide +kernel
 
 -- D-C01a: MONTHLY with plain MO and nth TU(1): nothing in a whole year although the set has every Monday
 example : dates (construct { freq := 1, dtstart := dt 2020 1 1 9, byweekday := some [(0, 0), (1, 1)] }) 12 = [] := by
